@@ -15,11 +15,13 @@ struct ConvSnap {
 	std::vector<std::map<uint16_t, float>> skinDataWeights; // per bone, straight from NiSkinData (SE files keep weights in two places)
 };
 
+static bool ctx_probe_strips = false;
 static std::vector<ConvSnap> captureAll(NifFile& nif) {
 	std::vector<ConvSnap> v;
 	for (auto sh : nif.GetShapes()) {
 		ConvSnap c;
 		c.s = snapShape(nif, sh);
+		if (c.s.isStrips) { c.s.tris = c.s.stripTris; ctx_probe_strips = true; } // triangles of a strips shape: expanded by the harness, not by the library
 		if (auto shader = nif.GetShader(sh)) { c.shaderType = shader->GetBlockName(); c.modelSpace = shader->IsModelSpace(); }
 		if (auto p = nif.GetParentNode(sh)) c.parentName = p->name.get();
 		for (auto& r : nif.GetTexturePathRefs(sh)) c.textures.push_back(r.get());
@@ -143,6 +145,7 @@ void profile_convert(const json& plan, Ctx& ctx) {
 			auto& ver = nif->GetHeader().GetVersion();
 			bool toSSE = ver.IsSK();
 			std::vector<ConvSnap> before = captureAll(*nif);
+			if (ctx_probe_strips) ctx.probe("strips_expanded_independently");
 			// weights live in two places in SE files and in one in LE files; they are compared when the source is consistent
 			bool comparable = true;
 			OptOptions o;
